@@ -579,6 +579,84 @@ func genStore(c *ctx, out string) {
 	l.p("def walkEnd : CRet := %s", cret(ires["end"]))
 	facts["isRevokedWalk"] = ires
 
+	// ---- serializer: CRLMetaInfo read-back of a NextUpdate written as GeneralizedTime (asn1serializer.go) ----
+	const as = "crl/crlstore/asn1serializer.go"
+	dm := c.funcDecl(as, "ASN1Serializer", "DeserializeMetaInfo")
+	var dms []string
+	for _, st := range dm.Body.List {
+		dms = append(dms, stStmtStr(st))
+	}
+	fallback := false
+	switch strings.Join(dms, ";") {
+	case "metaInfo:=new(crlreader.CRLMetaInfo);_,err:=asn1.Unmarshal(crlMetaBytes,metaInfo);if err!=nil;return metaInfo,nil":
+		ifs := dm.Body.List[2].(*ast.IfStmt)
+		var inner []string
+		for _, st := range ifs.Body.List {
+			inner = append(inner, stStmtStr(st))
+		}
+		switch strings.Join(inner, ";") {
+		case "return nil,err":
+		case "rawNextUpdate:=new(crlMetaInfoRawNextUpdate);_,errRaw:=asn1.Unmarshal(crlMetaBytes,rawNextUpdate);if errRaw!=nil;" +
+			"nextUpdate,errRaw:=time.Parse(\"20060102150405Z0700\",string(rawNextUpdate.NextUpdate.Bytes));if errRaw!=nil;return &{...},nil":
+			// the returned value copies issuer and thisUpdate and carries the parsed time
+			ret := ifs.Body.List[5].(*ast.ReturnStmt)
+			ue, isU := ret.Results[0].(*ast.UnaryExpr)
+			var cl *ast.CompositeLit
+			if isU {
+				cl, _ = ue.X.(*ast.CompositeLit)
+			}
+			if cl == nil || exprStr(cl.Type) != "crlreader.CRLMetaInfo" || len(cl.Elts) != 3 {
+				fail("%s: DeserializeMetaInfo: fallback does not return a CRLMetaInfo built from the three fields", c.pos(dm))
+			}
+			for i, f := range [][2]string{{"Issuer", "rawNextUpdate.Issuer"}, {"ThisUpdate", "rawNextUpdate.ThisUpdate"}, {"NextUpdate", "nextUpdate"}} {
+				kv, isKV := cl.Elts[i].(*ast.KeyValueExpr)
+				if !isKV || exprStr(kv.Key) != f[0] || exprStr(kv.Value) != f[1] {
+					fail("%s: DeserializeMetaInfo: fallback field %s is not %s", c.pos(dm), f[0], f[1])
+				}
+			}
+			// the fallback type: same fields, NextUpdate left raw (optional)
+			ok := false
+			for _, d := range c.file(as).Decls {
+				gd, isG := d.(*ast.GenDecl)
+				if !isG || gd.Tok != token.TYPE {
+					continue
+				}
+				for _, sp := range gd.Specs {
+					ts := sp.(*ast.TypeSpec)
+					st, isS := ts.Type.(*ast.StructType)
+					if ts.Name.Name != "crlMetaInfoRawNextUpdate" || !isS || len(st.Fields.List) != 3 {
+						continue
+					}
+					f := st.Fields.List
+					if exprStr(f[0].Type) == "pkix.RDNSequence" && f[0].Names[0].Name == "Issuer" && f[0].Tag == nil &&
+						exprStr(f[1].Type) == "time.Time" && f[1].Names[0].Name == "ThisUpdate" && f[1].Tag == nil &&
+						exprStr(f[2].Type) == "asn1.RawValue" && f[2].Names[0].Name == "NextUpdate" && f[2].Tag != nil &&
+						unquote(f[2].Tag.Value) == `asn1:"optional"` {
+						ok = true
+					}
+				}
+			}
+			if !ok {
+				fail("%s: crlMetaInfoRawNextUpdate is not CRLMetaInfo with a raw optional NextUpdate", c.pos(dm))
+			}
+			// both error exits of the fallback return the ORIGINAL error (the value stays unreadable, never half-read)
+			for _, k := range []int{2, 4} {
+				if r := c.stSingleReturn(ifs.Body.List[k].(*ast.IfStmt).Body); len(r.Results) != 2 || exprStr(r.Results[0]) != "nil" || exprStr(r.Results[1]) != "err" {
+					fail("%s: DeserializeMetaInfo: fallback error exit %d does not return the original error", c.pos(dm), k)
+				}
+			}
+			fallback = true
+		default:
+			fail("%s: DeserializeMetaInfo: unexpected error branch %q", c.pos(dm), strings.Join(inner, ";"))
+		}
+	default:
+		fail("%s: DeserializeMetaInfo: unexpected body %q", c.pos(dm), strings.Join(dms, ";"))
+	}
+	// the tag of the stored type itself (crlreader.CRLMetaInfo.NextUpdate)
+	l.p("/-- %s DeserializeMetaInfo: a value asn1.Unmarshal rejects as CRLMetaInfo is read again with NextUpdate left raw and parsed as a four-digit-year (GeneralizedTime) time. -/", c.pos(dm))
+	l.p("def metaGeneralizedFallback : Bool := %v", fallback)
+	facts["metaGeneralizedFallback"] = fallback
+
 	l.p("")
 	l.p("end Store")
 	c.facts["store"] = facts
